@@ -509,6 +509,15 @@ func S2e(tier string) *Scenario {
 	return scenFrom("S2e-batch-early-release", cfg, pre, bud, al, nil)
 }
 
+// withEntryIDMismatch also offers AddAllowedBidders calls whose entry carries another auction's id.
+func (s *Scenario) withEntryIDMismatch() *Scenario {
+	if s.al != nil {
+		s.al.EntryIDMismatch = true
+	}
+	s.Name += "+entryid"
+	return s
+}
+
 // withMsgAddAllow offers MsgAddAllowedBidder (signed by the would-be bidder) in every state, for
 // every bidder of the alphabet plus an outsider.
 func (s *Scenario) withMsgAddAllow() *Scenario {
@@ -742,4 +751,24 @@ func S1f(tier string) *Scenario {
 	s.Cfg.Params = params("2acoin", "1acoin", 1)
 	s.Name = "S1f-fixed-lifecycle-fee-in-selling-denom"
 	return s
+}
+
+// S2o: an account with two roles. The auctioneer is allow-listed in their OWN batch auction and bids in
+// it next to an ordinary bidder (allocations, refunds, unsold coins and proceeds then all touch the
+// same account), with vesting.
+func S2o(tier string) *Scenario {
+	cfg := world.Config{Balances: stdBalances(), Params: params("", "1bcoin", 1)}
+	pre := []Op{
+		{Kind: "create_batch", Signer: "auc1", StartPrice: "1", MinPrice: "0.5", Sell: "10acoin", PayDenom: "bcoin", StartK: 0, EndK: 2, MaxExt: 1, Rate: "0.5", Sched: sched(5, 6)},
+		{Kind: "add_allowed", AID: 0, Bidder: "auc1", Max: "10"},
+		{Kind: "add_allowed", AID: 0, Bidder: "bid1", Max: "6"},
+	}
+	al := &Alphabet{
+		Bidders: []string{"auc1", "bid1"}, AllowBidders: []string{"auc1", "bid1"},
+		BatchPrices: []string{"0.5", "2"}, WorthAmts: []string{"7"}, ManyAmts: []string{"3", "8"},
+		ModPrices: []string{"3"},
+		MaxK:      7, BlockStops: []int{2, 3, 5, 6},
+	}
+	bud := Budget{"bid": 3, "mod": 1, "block": 4}
+	return scenFrom("S2o-auctioneer-bids-in-own-auction", cfg, pre, bud, al, nil)
 }
